@@ -24,6 +24,7 @@ import (
 	"errors"
 	"fmt"
 	"io"
+	"os"
 	"strconv"
 	"strings"
 	"testing"
@@ -1325,7 +1326,6 @@ func (w *vfc13World) finish() {
 
 // drain: no more client writes; run the links until both have read everything
 func (w *vfc13World) drain(r *vfutil.Rand) {
-	s := w.s
 	pending := w.pendingForeign()
 	emittedBefore := len(w.commits)
 	unread := 0
@@ -1454,6 +1454,40 @@ func TestVerifC13(t *testing.T) {
 	r := vfutil.NewRand(vfutil.Seed())
 	cp := "redis-gunyu-checkpoint-bisync:0123456789abcdef01234567"
 	tag := checkpoint.BisyncSlotTag(77)
+
+	// ---- VERIF_REPLAY: re-run the one history / script / probe a replay file names
+	if rp := os.Getenv("VERIF_REPLAY"); rp != "" {
+		raw, err := os.ReadFile(rp)
+		if err != nil {
+			t.Fatalf("replay file: %v", err)
+		}
+		var doc struct {
+			Replay map[string]interface{} `json:"replay"`
+		}
+		if err := json.Unmarshal(raw, &doc); err != nil {
+			t.Fatalf("replay file: %v", err)
+		}
+		rerun, _ := doc.Replay["rerun"].(string)
+		f := strings.SplitN(rerun, " ", 2)
+		switch {
+		case f[0] == "hist" && len(f) == 2:
+			var sub uint64
+			var nEv int
+			fmt.Sscanf(f[1], "%d %d", &sub, &nEv)
+			vfc13RunHistory(t, s, sub, nEv)
+			s.Count("replayed_history")
+			return
+		case f[0] == "script" && len(f) == 2:
+			vfc13RunScript(t, s, f[1])
+			s.Count("replayed_script")
+			return
+		case f[0] == "dbprobe":
+			vfc13DbProbe(t, s)
+			s.Count("replayed_dbprobe")
+			return
+		}
+		t.Logf("replay file %s carries no re-run recipe; running the whole suite", rp)
+	}
 
 	// ---- namespace predicates on keys around the reserved prefixes
 	keys := [][]byte{
@@ -1664,7 +1698,8 @@ func TestVerifC13(t *testing.T) {
 }
 
 // vfc13RunScript replays a corpus history: tokens
-//   cfg=<bitsA>,<bitsB> kind=<l|j|p> (sync | pipeline | parallel send loop)  c<S>:<cmd>  m<S>:<cmd>/…  t<S>:<dt>  x<S>:<hexkey>  l<S>
+//
+//	cfg=<bitsA>,<bitsB> kind=<l|j|p> (sync | pipeline | parallel send loop)  c<S>:<cmd>  m<S>:<cmd>/…  t<S>:<dt>  x<S>:<hexkey>  l<S>
 func vfc13RunScript(t *testing.T, s *vfutil.Session, line string) bool {
 	r := vfutil.NewRand(7)
 	ca, cb := vfc13RedisCfg{false, true, true}, vfc13RedisCfg{false, true, true}
@@ -1734,43 +1769,61 @@ func vfc13RunScript(t *testing.T, s *vfutil.Session, line string) bool {
 // database each unit is executed in at the target with the database it was
 // written in at the source.
 func vfc13DbProbe(t *testing.T, s *vfutil.Session) {
+	type probe struct {
+		stream []vfc13Cmd
+		wantDB []int
+	}
+	probes := []probe{
+		{[]vfc13Cmd{vfc13C("SELECT", "3"), vfc13C("SET", "k0", "v"), vfc13C("MULTI"), vfc13C("INCRBY", "n0", "1"), vfc13C("EXEC"),
+			vfc13C("SELECT", "0"), vfc13C("SET", "k1", "v")}, []int{3, 3, 0}},
+		// two non-zero databases, transactions in each, back and forth
+		{[]vfc13Cmd{vfc13C("SELECT", "1"), vfc13C("SET", "a", "1"), vfc13C("SELECT", "5"), vfc13C("MULTI"), vfc13C("SET", "b", "1"), vfc13C("SET", "c", "2"),
+			vfc13C("DEL", "a"), vfc13C("EXEC"), vfc13C("RPUSH", "d", "1"), vfc13C("SELECT", "1"), vfc13C("MULTI"), vfc13C("INCR", "e"), vfc13C("EXEC"),
+			vfc13C("SELECT", "0"), vfc13C("MULTI"), vfc13C("SET", "f", "1"), vfc13C("EXEC"), vfc13C("SELECT", "5"), vfc13C("DEL", "b")}, []int{1, 5, 5, 1, 0, 5}},
+	}
 	for _, mode := range []config.ReplayMode{config.ReplayModeSync, config.ReplayModePipeline, config.ReplayModeParallel} {
-		cp := "redis-gunyu-checkpoint-bisync:00000000000000000000db03"
-		tg := vfdoubles.NewTarget()
-		tg.Lenient = true
-		ro := vfc13NewOutput(false, "none", cp, nil, nil, tg)
-		ro.cfg.ReplayMode = mode
-		type src struct {
-			db   int
-			cmds []vfc13Cmd
-		}
-		stream := []vfc13Cmd{vfc13C("SELECT", "3"), vfc13C("SET", "k0", "v"), vfc13C("MULTI"), vfc13C("INCRBY", "n0", "1"), vfc13C("EXEC"),
-			vfc13C("SELECT", "0"), vfc13C("SET", "k1", "v")}
-		wantDB := []int{3, 3, 0}
-		var wire []byte
-		for _, c := range stream {
-			wire = append(wire, vfc13Resp(c)...)
-		}
-		err, log := vfBisyncLoopRun(t, ro, tg, "runid-db", wire, 0, 0)
-		if st := vfc13ParseStatus(err); st != "eof" {
-			s.Violate("db-probe-failed", st, map[string]interface{}{"mode": string(mode)})
-			continue
-		}
-		unit := 0
-		for _, e := range log {
-			if e.Cmd() != "exec" {
-				continue
+		for dir, site := range []string{"A", "B"} { // both links of a pair
+			for pi, pr := range probes {
+				cp := fmt.Sprintf("redis-gunyu-checkpoint-bisync:0000000000000000000%ddb0%d", dir, pi)
+				tg := vfdoubles.NewTarget()
+				tg.Lenient = true
+				ro := vfc13NewOutput(false, "none", cp, nil, nil, tg)
+				ro.cfg.ReplayMode = mode
+				ro.cfg.InputName = "in-" + site
+				var wire []byte
+				for _, c := range pr.stream {
+					wire = append(wire, vfc13Resp(c)...)
+				}
+				base := map[string]interface{}{"mode": string(mode), "link": site, "probe": pi, "rerun": "dbprobe"}
+				err, log := vfBisyncLoopRun(t, ro, tg, "runid-db-"+site, wire, 0, 0)
+				if st := vfc13ParseStatus(err); st != "eof" {
+					s.Violate("db-probe-failed", st, base)
+					continue
+				}
+				unit := 0
+				for _, e := range log {
+					if e.Cmd() != "exec" {
+						continue
+					}
+					if unit < len(pr.wantDB) && e.DB != pr.wantDB[unit] {
+						// the known shape (D31): nothing selects the unit's database, everything lands in the connection's DB 0.
+						// Any other pairing (e.g. a DB-0 write landing in DB 3 after a half repair) is a different finding.
+						shape := fmt.Sprintf("src_db=%d committed in dst_db=%d", pr.wantDB[unit], e.DB)
+						if pr.wantDB[unit] != 0 && e.DB == 0 {
+							shape = "src_db!=0 committed in dst_db=0"
+						}
+						s.Violate("unit-applied-in-other-database",
+							fmt.Sprintf("a write made in DB %d at the source was committed in DB %d at the other site (the unit carries Db=%d)", pr.wantDB[unit], e.DB, pr.wantDB[unit]),
+							map[string]interface{}{"shape": shape, "src_db": pr.wantDB[unit], "dst_db": e.DB, "mode": string(mode), "link": site, "probe": pi,
+								"stream": vfc13CmdsTok(pr.stream), "rerun": "dbprobe"})
+					}
+					unit++
+				}
+				if unit != len(pr.wantDB) {
+					s.Violate("db-probe-failed", fmt.Sprintf("%d units committed, want %d", unit, len(pr.wantDB)), base)
+				}
+				s.Count("db_probe_" + string(mode))
 			}
-			if unit < len(wantDB) && e.DB != wantDB[unit] {
-				s.Violate("unit-applied-in-other-database",
-					fmt.Sprintf("a write made in DB %d at the source was committed in DB %d at the other site (the unit carries Db=%d, dispatchBisyncUnit never selects it)", wantDB[unit], e.DB, wantDB[unit]),
-					map[string]interface{}{"src_db": wantDB[unit], "dst_db": e.DB, "mode": string(mode), "stream": vfc13CmdsTok(stream)})
-			}
-			unit++
 		}
-		if unit != len(wantDB) {
-			s.Violate("db-probe-failed", fmt.Sprintf("%d units committed, want %d", unit, len(wantDB)), map[string]interface{}{"mode": string(mode)})
-		}
-		s.Count("db_probe_" + string(mode))
 	}
 }
